@@ -7,6 +7,7 @@ import (
 	"encoding/binary"
 	"errors"
 	"fmt"
+	"runtime"
 	"sort"
 	"strings"
 	"sync"
@@ -353,16 +354,27 @@ func scenC20OneOnOne(k *K) {
 	}
 	k.F = FaultCfg{Deliver: 5, Refresh: 4, Tick: 2, Reorder: 1}
 	// several stores of one instance see the same peer join at once: 1-3 Connect calls for the
-	// same peer start together on each side (and one more may come once the pair is up)
+	// same peer start together on each side (and one more may come once the pair is up); every
+	// caller has a context of its own (a store's), which it may cancel later (the store closes)
+	var users [2][]context.CancelFunc
+	userCtx := func(side int) context.Context {
+		uctx, ucancel := context.WithCancel(ctx)
+		users[side] = append(users[side], ucancel)
+		return uctx
+	}
 	var extra []*Op
-	c0 := k.Go(0, "connect 0->1", func() (interface{}, error) { return nil, chans[0].Connect(ctx, nodes[1].ID) })
+	u := userCtx(0)
+	c0 := k.Go(0, "connect 0->1", func() (interface{}, error) { return nil, chans[0].Connect(u, nodes[1].ID) })
 	for j, m := 0, k.C.Intn(3); j < m; j++ {
-		extra = append(extra, k.Go(0, "connect 0->1 (again)", func() (interface{}, error) { return nil, chans[0].Connect(ctx, nodes[1].ID) }))
+		u := userCtx(0)
+		extra = append(extra, k.Go(0, "connect 0->1 (again)", func() (interface{}, error) { return nil, chans[0].Connect(u, nodes[1].ID) }))
 	}
 	k.Steps(k.C.Intn(6))
-	c1 := k.Go(1, "connect 1->0", func() (interface{}, error) { return nil, chans[1].Connect(ctx, nodes[0].ID) })
+	u1 := userCtx(1)
+	c1 := k.Go(1, "connect 1->0", func() (interface{}, error) { return nil, chans[1].Connect(u1, nodes[0].ID) })
 	for j, m := 0, k.C.Intn(3); j < m; j++ {
-		extra = append(extra, k.Go(1, "connect 1->0 (again)", func() (interface{}, error) { return nil, chans[1].Connect(ctx, nodes[0].ID) }))
+		u := userCtx(1)
+		extra = append(extra, k.Go(1, "connect 1->0 (again)", func() (interface{}, error) { return nil, chans[1].Connect(u, nodes[0].ID) }))
 	}
 	allConnected := func() bool {
 		for _, o := range append([]*Op{c0, c1}, extra...) {
@@ -385,9 +397,51 @@ func scenC20OneOnOne(k *K) {
 	}
 	if k.C.Chance(1, 3) {
 		side := k.C.Intn(2)
-		if op := k.Do(side, "connect (once more)", 50, func() (interface{}, error) { return nil, chans[side].Connect(ctx, nodes[1-side].ID) }); !op.Done || op.Err != nil {
+		u := userCtx(side)
+		if op := k.Do(side, "connect (once more)", 50, func() (interface{}, error) { return nil, chans[side].Connect(u, nodes[1-side].ID) }); !op.Done || op.Err != nil {
 			k.Failf("C20/oneonone/connect", "Connect on an established pair failed: done=%v err=%v", op.Done, op.Err)
 		}
+	}
+	// churn: on one side every caller goes away (the channel to the peer is given up) and 2-3
+	// new ones connect right behind, 0-6 scheduling points apart, while the old channel is
+	// still winding down; nothing is sent meanwhile
+	if k.C.Chance(1, 2) {
+		side := k.C.Intn(2)
+		gaps := []int{k.C.Intn(7), k.C.Intn(7), k.C.Intn(7)}
+		nnew := k.C.Range(2, 3)
+		var ctxs []context.Context
+		for j := 0; j < nnew; j++ {
+			ctxs = append(ctxs, userCtx(side))
+		}
+		old := users[side][:len(users[side])-nnew]
+		done := make([]chan error, nnew)
+		cop := k.Go(side, "callers leave, new ones connect", func() (interface{}, error) {
+			for _, c := range old {
+				c()
+			}
+			for j := 0; j < nnew; j++ {
+				for g := 0; g < gaps[j]; g++ {
+					runtime.Gosched()
+				}
+				j := j
+				done[j] = make(chan error, 1)
+				go func() { done[j] <- chans[side].Connect(ctxs[j], nodes[1-side].ID) }()
+			}
+			for j := 0; j < nnew; j++ {
+				if err := <-done[j]; err != nil {
+					return nil, err
+				}
+			}
+			return nil, nil
+		})
+		for j := 0; j < 400 && !k.IsDone(cop); j++ {
+			k.Step()
+		}
+		if !k.IsDone(cop) || cop.Err != nil {
+			k.Failf("C20/oneonone/connect", "Connect after all earlier callers had left failed: done=%v err=%v pending=%v", k.IsDone(cop), cop.Err, k.PendingDesc())
+		}
+		k.Settle(10*time.Second, 300, nil)
+		k.W.Stat("oneonone-callers-left-and-new-ones-connected")
 	}
 	// one and the same topic on both ends
 	k.W.mu.Lock()
